@@ -125,6 +125,8 @@ func (il *IPRequestLimiter) Count(ip string) int {
 
 // EndTime returns next reset time.
 func (il *IPRequestLimiter) EndTime() time.Time {
+	il.mux.Lock()
+	defer il.mux.Unlock()
 	return il.ResetTime.Add(il.Interval)
 }
 
